@@ -212,6 +212,7 @@ impl Ctx {
             runs.push(r);
         }
         self.bump("impl_ms", t_impl.elapsed().as_millis() as usize);
+        let oracle_before = self.findings.iter().filter(|f| f.class == "oracle").count();
         // shadow oracle on the implementation alone
         for (c, r) in cases.iter().zip(runs.iter()) {
             for (n, (a, tr)) in r.answers.iter().zip(r.truthful.iter()).enumerate() {
@@ -251,6 +252,19 @@ impl Ctx {
             }
             for cm in &r.complaints {
                 self.oracle_fail(format!("accessor contract: {}", cm), c, None);
+            }
+        }
+        // shrink the first few generic failures of this batch to minimal call sequences
+        let mut shrunk = 0;
+        for k in oracle_before..self.findings.len() {
+            if shrunk >= 3 { break; }
+            if self.findings[k].class == "oracle" && self.findings[k].case.lines.len() > 3 && self.findings[k].case.lines.len() < 4000 {
+                let c = shrink_generic(&self.findings[k].case, &self.findings[k].what);
+                if c.lines.len() < self.findings[k].case.lines.len() {
+                    self.findings[k].case = c;
+                    self.findings[k].line_no = None;
+                }
+                shrunk += 1;
             }
         }
         // model: the cases are spread over up to 14 rsmodel processes
@@ -394,6 +408,78 @@ impl Ctx {
         );
         j
     }
+}
+
+/// the shadow-based oracle on one case (implementation only): (line index, description) of every
+/// failure — panics, untruthful errors, Ok for invalid use, accessor-contract complaints
+pub fn generic_failures(case: &Case) -> Vec<(Option<usize>, String)> {
+    let r = run_impl(case);
+    let mut out = vec![];
+    for (n, (a, tr)) in r.answers.iter().zip(r.truthful.iter()).enumerate() {
+        match a {
+            Ans::Panic(p) => out.push((Some(n), format!("panic on `{}`: {}", short(&case.lines[n]), p))),
+            Ans::Err(e) => {
+                if !tr.contains(e) {
+                    out.push((Some(n), format!("`{}` returned Err({}) which is not a violated precondition (truthful: {:?})", short(&case.lines[n]), e, tr)));
+                }
+            }
+            Ans::Ok(_) => {
+                if !tr.is_empty() {
+                    out.push((Some(n), format!("`{}` returned Ok although it violates: {:?}", short(&case.lines[n]), tr)));
+                }
+            }
+            _ => {}
+        }
+    }
+    for cm in &r.complaints {
+        out.push((None, format!("accessor contract: {}", cm)));
+    }
+    out
+}
+
+fn failure_kind(what: &str) -> String {
+    // category of a failure: the text up to the first back-quote payload / number
+    let w: String = what.chars().take_while(|c| *c != '`').collect();
+    if w.trim().is_empty() {
+        // starts with a quoted call: use what follows the call
+        what.rsplit('`').next().unwrap_or("").chars().filter(|c| !c.is_ascii_digit()).take(40).collect()
+    } else {
+        w.chars().filter(|c| !c.is_ascii_digit()).take(40).collect()
+    }
+}
+
+/// delta debugging on the lines of a case: keeps a failure of the same kind
+pub fn shrink_generic(case: &Case, what: &str) -> Case {
+    let kind = failure_kind(what);
+    let still = |c: &Case| generic_failures(c).iter().any(|(_, w)| failure_kind(w) == kind);
+    if !still(case) {
+        return case.clone();
+    }
+    let mut cur = case.clone();
+    let mut chunk = (cur.lines.len() / 2).max(1);
+    let mut budget = 400;
+    while chunk >= 1 && budget > 0 {
+        let mut i = 0;
+        let mut progressed = false;
+        while i < cur.lines.len() && budget > 0 {
+            let mut cand = cur.clone();
+            let hi = (i + chunk).min(cand.lines.len());
+            cand.lines.drain(i..hi);
+            budget -= 1;
+            if !cand.lines.is_empty() && still(&cand) {
+                cur = cand;
+                progressed = true;
+            } else {
+                i += chunk;
+            }
+        }
+        if !progressed {
+            if chunk == 1 { break; }
+            chunk /= 2;
+        }
+    }
+    cur.name = format!("{} (shrunk from {} to {} calls)", case.name, case.lines.len(), cur.lines.len());
+    cur
 }
 
 pub fn model_eval_at(model_path: &str, lines: &[String]) -> Result<Vec<String>, String> {
